@@ -40,6 +40,11 @@ def main() -> int:
 def replay(path: str) -> int:
     import json
 
-    bad, why = pyenc.replay_payload(json.load(open(path)))
+    p = json.load(open(path))
+    if p.get("kind") == "c":
+        from . import cenc
+
+        return cenc.replay_main(path)
+    bad, why = pyenc.replay_payload(p)
     print(("FAILS: " if bad else "passes: ") + why)
     return 1 if bad else 0
